@@ -189,7 +189,10 @@ func (r *Run) Violate(clause, key, what string, cas any) {
 	defer r.mu.Unlock()
 	id := clause + "\x00" + key
 	r.seenViol[id]++
-	if r.seenViol[id] > 1 || len(r.res.Violations) >= 60 {
+	r.seenViol["\x01"+clause]++
+	// keep at most 6 witnesses per clause and shard so that one frequent
+	// defect cannot crowd out the others
+	if r.seenViol[id] > 1 || r.seenViol["\x01"+clause] > 6 || len(r.res.Violations) >= 120 {
 		r.res.MoreViol++
 		return
 	}
